@@ -27,7 +27,23 @@ RS == IF Thorough THEN 60 ELSE 40
 
 Laws == {"bucket", "clamp", "csv", "csvnaive", "csvfile", "hi", "divmod", "minmax", "fold", "compare", "logic", "cond",
          "substr", "select", "contains", "case", "tab", "floorceil", "round", "expbucket", "unit", "percent",
-         "path", "lookup", "errors", "arity", "hf", "constpos"}
+         "path", "lookup", "errors", "arity", "hf", "constpos",
+         "utf8", "utf8bad", "truth", "truthbad", "condws", "bignat", "bigsmall", "bigint", "bigfrac", "bigedge", "nonfinite", "expform"}
+
+\* ---- text: scalar values around every White_Space code point, the near misses, some visible characters
+WsNear == {132, 134, 159, 161, 173, 5759, 5761, 6158, 8191, 8203, 8204, 8205, 8206, 8231, 8234, 8238, 8240, 8286, 8288,
+           12287, 12289, 65279, 65533}
+CpPool == U8WS \cup WsNear \cup {97, 48, 233, 19990, 128512}
+CpSeqs(n) == UNION {[1..k -> CpPool] : k \in 0..n}
+IllFormed == {<<160>>, <<133>>, <<194>>, <<226, 128>>, <<192, 160>>, <<224, 128, 160>>, <<237, 160, 128>>, <<255>>,
+              <<244, 144, 128, 128>>, <<226, 128, 40>>}
+WsTexts == {U8EncodeAll(q) : q \in UNION {[1..k -> {32, 9, 133, 160, 5760, 8195, 8232, 12288}] : k \in 1..2}}
+
+\* ---- numbers: m * 2^k as digit sequences
+BigMs == {1, 3, 5, 7, 10, 625, 999999999, 123456789, 536870913}
+BigKs == IF Thorough THEN 0..100 ELSE {0, 1, 20, 22, 23, 24, 30, 31, 32, 33, 34, 43, 52, 53, 62, 63, 64, 65, 70, 100}
+BigNat(m, k) == BnShl(BnOfInt(m), k)
+P2x63 == BigNat(1, 63)
 
 CsvAlpha == {97, 44, 34, 13, 10, 32}
 CsvLists == {<<a>> : a \in Strs(CsvAlpha, 2)} \cup {<<a, b>> : a, b \in Strs(CsvAlpha, 2)}
@@ -72,6 +88,22 @@ Cases(law) ==
     [] law = "hf" -> Pairs({0, 5, 999, 1000, 12345, 1234567, 99999999, 0 - 1000, 0 - 999999}, 0..4)
     [] law = "constpos" -> Pairs({"bucket", "bucketrange", "clamp", "round", "percent", "bytesize", "bytesizesi",
                                   "downscale", "lookup", "haskey"}, {"c", "d"})
+    [] law = "utf8" -> (IF Thorough THEN 0..13000 ELSE 0..2300 \cup 5700..5800 \cup 8100..8400 \cup 12200..12400)
+                       \cup {2047, 2048, 55295, 55296, 57343, 57344, 65279, 65535, 65536, 128512, 1114111}
+    [] law = "utf8bad" -> IllFormed \cup {<<b>> : b \in 128..255}
+    [] law = "truth" -> CpSeqs(IF Thorough THEN 3 ELSE 2)
+    [] law = "truthbad" -> Triples(WsTexts \cup {<<>>}, IllFormed, WsTexts \cup {<<>>})
+    [] law = "condws" -> Triples(CpSeqs(2), IF Thorough THEN {<<>>, <<120>>} ELSE {<<120>>}, {<<>>, <<121>>})
+    [] law = "bignat" -> Pairs(BigMs \cup 0..40, BigKs)
+    [] law = "bigsmall" -> Triples((0 - 260)..260, 0..3, 0..3)
+    [] law = "bigint" -> Triples(BigMs, BigKs, {FALSE, TRUE})
+    [] law = "bigfrac" -> Triples(BigMs \cup {2, 4, 6}, {0, 1, 10, 20, 21, 22, 23, 30, 40, 48, 49, 50, 51, 52},
+                                  Pairs({<<53>>, <<50, 53>>, <<55, 53>>, <<49, 50, 53>>, <<51, 55, 53>>, <<54, 50, 53>>, <<48, 54, 50, 53>>}, {FALSE, TRUE}))
+    [] law = "bigedge" -> {"2^53+1", "10^22", "10^23", "2^63-1", "2^63-1024", "0.1big", "long"}
+    [] law = "expform" -> Triples({1, 5, 15, 25, 125, 1024, 999999999, 0 - 1, 0 - 25, 0 - 375}, (0 - 4)..24, {101, 69})
+    [] law = "nonfinite" -> Pairs({"floor", "ceil", "round"},
+                                  {<<105, 110, 102>>, <<43, 73, 110, 102>>, <<45, 105, 110, 102>>, <<73, 110, 102, 105, 110, 105, 116, 121>>,
+                                   <<45, 105, 110, 102, 105, 110, 105, 116, 121>>, <<110, 97, 110>>, <<78, 97, 78>>})
 
 E1(f, a) == Eval(f, <<a>>)
 E2(f, a, b) == Eval(f, <<a, b>>)
@@ -231,14 +263,21 @@ Law(law, x) ==
               /\ IsOut(ce) /\ (Num(ce) - 1) * D < m /\ m <= Num(ce) * D
               /\ (m # 0 => Num(ce) = 0 - Num(E1("floor", DecStr(0 - m, s))))
     [] law = "round" ->
-         \* the result has exactly p decimals and is the nearest such number (ties are outside the domain)
+         \* the result has exactly p decimals and is the nearest such number; exactly half way between two
+         \* of them it is either (both, and only those, are accepted)
          LET m == x[1]  s == x[2]  p == x[3]  t == DecStr(m, s)
-             e == IF p = 0 /\ m % 2 = 0 THEN E1("round", t) ELSE E2("round", t, I(p)) IN
+             e == IF p = 0 /\ m % 2 = 0 THEN E1("round", t) ELSE E2("round", t, I(p))
+             tie == s > p /\ (2 * (AbsI(m) % P10(s - p)) = P10(s - p)) IN
          IF e.k = "any" THEN
-              \/ (s > p /\ (2 * (AbsI(m) % P10(s - p)) = P10(s - p)))            \* a tie
-              \/ (m < 0 /\ 2 * AbsI(m) < P10(s - p) /\ s > p)                    \* rounds to -0
-              \/ (m = 0 /\ FALSE)
-         ELSE /\ IsOut(e) /\ DecOK(e.v)
+              (m < 0 /\ 2 * AbsI(m) <= P10(s - p) /\ s > p)                       \* rounds to -0 (or ties with it)
+         ELSE IF e.k = "oneof" THEN
+              /\ tie /\ Len(e.alts) = 2 /\ e.alts[1] # e.alts[2] /\ e.ce = "n"
+              /\ \A i \in 1..2 : /\ DecOK(e.alts[i]) /\ Dec(e.alts[i]).neg = (m < 0)
+                                  /\ (p = 0 => IndexByte(e.alts[i], DOT) = 0)
+                                  /\ (p > 0 => IndexByte(e.alts[i], DOT) = Len(e.alts[i]) - p)
+                                  /\ LET full == Dec(e.alts[i]) IN
+                                     2 * AbsI(DecM(full) * P10(s - full.s) - m) = P10(s - p)
+         ELSE /\ ~tie /\ IsOut(e) /\ DecOK(e.v)
               /\ LET d == DecParts(e.v)  full == Dec(e.v) IN
                  /\ (p = 0 => IndexByte(e.v, DOT) = 0)
                  /\ (p > 0 => IndexByte(e.v, DOT) = Len(e.v) - p)
@@ -333,6 +372,150 @@ Law(law, x) ==
              pos == [j \in 1..Len(args) |-> IF j = 1 THEN "d" ELSE p]
              e == Expect(f, args, pos) IN
          IF p = "d" THEN e = Marker ELSE e.k \in {"out", "oneof", "truthy"} /\ e.ce = "n"
+    [] law = "utf8" ->
+         \* encoding and decoding are inverse on the scalar values; lengths by range; surrogates are not scalar values
+         LET cp == x  b == U8Encode(cp) IN
+         IF cp >= 55296 /\ cp <= 57343 THEN ~U8WellFormed(b)
+         ELSE /\ U8Decode(b) = <<cp>> /\ U8WellFormed(b)
+              /\ Len(b) = (IF cp < 128 THEN 1 ELSE IF cp < 2048 THEN 2 ELSE IF cp < 65536 THEN 3 ELSE 4)
+              /\ U8Decode(<<97>> \o b \o <<32>>) = <<97, cp, 32>>
+              /\ (cp >= 128 => ~U8WellFormed(SubSeq(b, 1, Len(b) - 1)) /\ ~U8WellFormed(Tail(b)))
+    [] law = "utf8bad" ->
+         \* stray continuation bytes, truncated, overlong and out-of-range forms are ill-formed, never a blank
+         /\ ~U8WellFormed(x) /\ ~U8AllBlank(x) /\ ~U8SomeVisible(x)
+         /\ TruthClass(x) \in {"unknown", "true"}
+    [] law = "truth" ->
+         \* "False is an empty value (or only whitespace)": a text of scalar values is blank iff it is not empty
+         \* and all of them are White_Space; it is true as soon as one of them is certainly visible
+         LET s == U8EncodeAll(x)  cl == TruthClass(s)
+             ws == \A i \in 1..Len(x) : x[i] \in U8WS
+             vis == \E i \in 1..Len(x) : U8Visible(x[i]) IN
+         /\ (cl = "empty") = (x = <<>>)
+         /\ (cl = "blank") = (x # <<>> /\ ws)
+         /\ (cl = "true") = vis
+         /\ (cl = "unknown") = (~ws /\ ~vis)
+         /\ U8Decode(s) = x
+         \* the six ASCII blanks are not the whole of it: 19 further code points are white space
+         /\ Cardinality(U8WS) = 25 /\ Cardinality({w \in U8WS : w >= 128}) = 19
+    [] law = "truthbad" ->
+         \* white space around an ill-formed piece is not a blank value (nothing is demanded of it)
+         LET s == x[1] \o x[2] \o x[3] IN TruthClass(s) \in {"unknown", "true"} /\ (TruthClass(s) = "true") = (x[2] = <<226, 128, 40>>)
+    [] law = "condws" ->
+         \* whitespace-only (any White_Space) is false for if / unless / switch; one visible character makes it true;
+         \* and / or / not on whitespace-only values stay outside the domain (the docs contradict themselves)
+         LET cnd == U8EncodeAll(x[1])  y == x[2]  z == x[3]
+             ws == \A i \in 1..Len(x[1]) : x[1][i] \in U8WS
+             vis == \E i \in 1..Len(x[1]) : U8Visible(x[1][i]) IN
+         IF ws THEN
+           /\ E3("if", cnd, y, z) = Out(z) /\ E2("if", cnd, y) = Out(<<>>) /\ E2("unless", cnd, z) = Out(z)
+           /\ E3("switch", cnd, y, z) = Out(z) /\ E2("switch", cnd, y) = Out(<<>>)
+           /\ Eval("switch", <<cnd, y, <<97>>, z, <<101>>>>) = Out(z)
+           /\ (cnd # <<>> => E1("not", cnd) = AnyR /\ E2("and", cnd, <<97>>) = AnyR /\ E2("or", cnd, <<>>) = AnyR)
+         ELSE IF vis THEN
+           /\ E3("if", cnd, y, z) = Out(y) /\ E2("unless", cnd, z) = Out(<<>>) /\ E3("switch", cnd, y, z) = Out(y)
+           /\ Eval("switch", <<<<32, 194, 160>>, y, cnd, z, <<101>>>>) = Out(z)
+           /\ E1("not", cnd) = Out(<<>>) /\ E2("and", cnd, <<97>>) = TruthyR
+         ELSE E3("if", cnd, y, z) = AnyR /\ E2("unless", cnd, z) = AnyR /\ E1("not", cnd) = AnyR
+    [] law = "bignat" ->
+         \* the digit-sequence arithmetic: doubling and halving are inverse, parity, order, successor
+         LET m == x[1]  k == x[2]  d == BigNat(m, k)  d2 == BnDouble(d) IN
+         /\ BnIsNat(d) /\ BnNorm(d) = d
+         /\ BnHalve(d2) = d /\ ~BnOdd(d2) /\ BnOdd(BnInc(d2)) /\ BnHalve(BnInc(d2)) = d
+         /\ (m # 0 => BnLess(d, d2) /\ ~BnLess(d2, d)) /\ BnLess(d, BnInc(d)) /\ ~BnLess(d, d)
+         /\ (k = 0 => d = BnOfInt(m) /\ BnInc(d) = BnOfInt(m + 1))
+         /\ (m # 0 => BnOddPart(d) = BnOddPart(BnOfInt(m)))
+         /\ (m # 0 /\ k <= 30 /\ m <= 1 => d = BnOfInt(2 ^ k))
+    [] law = "bigsmall" ->
+         \* where the 32 bit model and the digit arithmetic both apply they agree: floor, ceil and every rounding
+         LET m == x[1]  s == x[2]  p == x[3]  t == DecStr(m, s)  dp == DecParts(t)
+             fl == E1("floor", t)  ce == E1("ceil", t)  rs == RoundScaled(Dec(t).a, Dec(t).s, p)
+             rb == BnRound(dp.ip, dp.fp, p) IN
+         /\ DecClass(t) = "dec"
+         /\ (m # 0 \/ TRUE) /\ fl = Out(BnFloor(dp.neg, dp.ip, dp.fp)) /\ ce = Out(BnCeil(dp.neg, dp.ip, dp.fp))
+         /\ (rs.st = "tie") = (rb.st = "tie")
+         /\ (rs.st = "tie" => BnOfInt(rs.q) = rb.dn /\ BnOfInt(rs.q + 1) = rb.up)
+         /\ (rs.st = "ok" => BnOfInt(rs.q) = (IF rb.st = "gt" THEN rb.up ELSE rb.dn))
+         /\ BnFmt(rb.dn, p) = FmtFixed(IF rs.st = "ok" /\ rb.st = "gt" THEN rs.q - 1 ELSE rs.q, p)
+    [] law = "bigint" ->
+         \* an integer m * 2^k (m < 2^53) is a binary64 value: floor, ceil and round leave it alone, whatever
+         \* its size (2^63, 2^64, 2^100 ...); with a precision only zeros are added; the sign is kept
+         LET d == BigNat(x[1], x[2])  t == Signed(x[3], d)
+ IN
+         /\ Len(d) <= 40                                       \* the bound of the digit arithmetic (BigBounds)
+         /\ F64Exact(d, <<>>)
+         /\ E1("floor", t) = Out(t) /\ E1("ceil", t) = Out(t) /\ E1("round", t) = Out(t)
+         /\ LET r2 == E2("round", t, I(2)) IN r2 = Out(t \o <<DOT, 48, 48>>) \/ (DecClass(t) = "dec" /\ Len(d) >= 8 /\ r2 = AnyR)
+         /\ (DecClass(t) = "decbig" => IsBigExact(t))
+         \* a design that goes through int64 cannot: from 2^63 on the numeral differs from every int64
+         /\ (~BnLess(d, P2x63) => Len(d) >= 19)
+    [] law = "bigfrac" ->
+         \* n + fr with n = m * 2^k below 2^52 and fr a dyadic fraction of 1..4 binary places, a binary64 value iff n * 2^places < 2^53:
+         \* floor n (or -(n+1)), ceil n+1 (or -n), round to the nearer, a tie is either neighbour
+         LET n == BigNat(x[1], x[2])  fr == x[3][1]  neg == x[3][2]
+             t == Signed(neg, BnFmt(n, 0) \o <<DOT>> \o fr)
+             fits == BnLess(BnShl(n, Len(fr)), P2x53)          \* fr has Len(fr) binary places: the value times 2^Len(fr) is odd
+             n1 == BnInc(n)
+             sg(d) == Signed(neg, d)
+             half == IF fr = <<53>> THEN "tie" ELSE IF fr[1] >= 53 THEN "gt" ELSE "lt" IN
+         IF ~fits THEN (DecClass(t) = "decbig" => ~IsBigExact(t) /\ E1("floor", t) = AnyR /\ E1("round", t) = AnyR)
+         ELSE IF DecClass(t) # "decbig" THEN DecClass(t) = "dec"
+         ELSE /\ IsBigExact(t)
+              /\ E1("floor", t) = Out(IF neg THEN sg(n1) ELSE BnFmt(n, 0))
+              /\ E1("ceil", t) = Out(IF neg THEN (IF n = <<>> THEN <<48>> ELSE sg(n)) ELSE n1)
+              /\ LET r == E1("round", t) IN
+                 IF neg /\ n = <<>> THEN r = AnyR
+                 ELSE IF half = "tie" THEN r = OneOf(<<sg(BnFmt(n, 0)), sg(n1)>>)
+                 ELSE r = Out(sg(IF half = "gt" THEN n1 ELSE BnFmt(n, 0)))
+              /\ E2("round", t, I(Len(fr))) = Out(t)
+              /\ E2("round", t, I(Len(fr) + 2)) = Out(t \o <<48, 48>>)
+              \* one decimal fewer than the fraction has: the last digit is a 5, i.e. always a tie
+              /\ LET r1 == E2("round", t, I(Len(fr) - 1)) IN
+                 (neg /\ n = <<>> /\ BnAllZero(SubSeq(fr, 1, Len(fr) - 1))) \/ (r1.k = "oneof" /\ Len(r1.alts) = 2 /\ r1.alts[1] # r1.alts[2])
+    [] law = "bigedge" ->
+         LET e19 == <<49>> \o BnZeros(19) IN
+         (CASE x = "2^53+1" -> /\ ~F64Exact(BnInc(P2x53), <<>>) /\ F64Exact(P2x53, <<>>) /\ F64Exact(BnInc(BnInc(P2x53)), <<>>)
+                              /\ E1("floor", BnInc(P2x53)) = AnyR /\ E1("round", BnInc(P2x53)) = AnyR
+           [] x = "10^22" -> /\ F64Exact(<<49>> \o BnZeros(22), <<>>) /\ E1("round", <<49>> \o BnZeros(22)) = Out(<<49>> \o BnZeros(22))
+                             /\ E1("floor", e19) = Out(e19) /\ E1("ceil", <<MINUS>> \o e19) = Out(<<MINUS>> \o e19)
+           [] x = "10^23" -> ~F64Exact(<<49>> \o BnZeros(23), <<>>) /\ E1("round", <<49>> \o BnZeros(23)) = AnyR
+           [] x = "2^63-1" -> LET d == <<57, 50, 50, 51, 51, 55, 50, 48, 51, 54, 56, 53, 52, 55, 55, 53, 56, 48, 55>> IN
+                              /\ BnInc(d) = P2x63 /\ ~F64Exact(d, <<>>) /\ E1("floor", d) = AnyR
+                              /\ E1("floor", P2x63) = Out(P2x63) /\ E1("round", <<MINUS>> \o P2x63) = Out(<<MINUS>> \o P2x63)
+           [] x = "2^63-1024" -> LET d == <<57, 50, 50, 51, 51, 55, 50, 48, 51, 54, 56, 53, 52, 55, 55, 52, 55, 56, 52>> IN
+                              F64Exact(d, <<>>) /\ BnLess(d, P2x63) /\ E1("ceil", d) = Out(d)
+           [] x = "0.1big" -> LET t == <<48, DOT, 49, 48, 48, 48, 48, 48, 48, 48, 48, 49>> IN DecClass(t) = "decbig" /\ ~IsBigExact(t) /\ E1("ceil", t) = AnyR
+           [] x = "long" -> LET t == <<49>> \o BnZeros(41) IN DecClass(t) = "decbig" /\ ~IsBigExact(t) /\ E1("round", t) = AnyR)
+    [] law = "expform" ->
+         \* m e x is the number m * 10^x: the plain spelling is the digits of m with the point moved; floor / ceil / round give
+         \* what they give for the plain spelling - or, should the spelling not count as a number, the error marker; nothing else
+         LET m == x[1]  ex == x[2]  t == I(m) \o <<x[3]>> \o (IF ex >= 0 /\ m % 2 = 0 THEN <<43>> ELSE <<>>) \o I(ex)
+             pl == ExpPlain(t)
+             same(f) == LET a == E1(f, t)  b == E1(f, pl) IN
+                        IF b.k = "out" THEN a.k = "oneof" /\ a.alts = <<b.v, BADTYPE>>
+                        ELSE IF b.k = "oneof" THEN a.k = "oneof" /\ a.alts = Append(b.alts, BADTYPE)
+                        ELSE a = AnyR IN
+         /\ IsExpForm(t) /\ DecClass(t) = "other" /\ DecOK(pl) /\ ~IsExpForm(pl)
+         /\ (ex >= 0 => pl = I(m) \o Zeros(ex))
+         /\ (ex < 0 => LET dp == DecParts(pl)  dm == DecParts(DecStr(m, 0 - ex)) IN dp = dm)
+         /\ same("floor") /\ same("ceil") /\ same("round")
+         /\ (ex >= 0 /\ ex <= 19 /\ AbsI(m) <= 1024 => E1("floor", t).k = "oneof")       \* |m| * 5^ex < 2^53: a binary64 value
+         /\ (m = 1 /\ ex = 19 => /\ E1("floor", t).alts = <<(<<49>> \o Zeros(19)), BADTYPE>>
+                                /\ ~Matches("floor", <<t>>, E1("floor", t), <<45, 57, 50, 50, 51, 51, 55, 50, 48, 51, 54, 56, 53, 52, 55, 55, 53, 56, 48, 56>>, FALSE)
+                                /\ Matches("floor", <<t>>, E1("floor", t), <<49>> \o Zeros(19), FALSE))
+         /\ LET t2 == <<49, DOT, 53>> \o <<x[3]>> \o I(ex) IN          \* 1.5 e x
+            /\ IsExpForm(t2)
+            /\ (ex >= 1 => ExpPlain(t2) = <<49, 53>> \o Zeros(ex - 1))
+            /\ (ex = 0 => ExpPlain(t2) = <<49, DOT, 53>>)
+            /\ (ex < 0 => ExpPlain(t2) = <<48, DOT>> \o Zeros(0 - ex - 1) \o <<49, 53>>)
+    [] law = "nonfinite" ->
+         \* an infinity or NaN has no floor / ceil / rounded numeral: a numeral is never accepted, the error marker and any
+         \* spelling of the non-finite value are
+         LET e == IF x[1] = "round" THEN E2("round", x[2], I(0)) ELSE E1(x[1], x[2]) IN
+         /\ e = NotNumR
+         /\ ~Matches(x[1], <<x[2]>>, e, <<45, 57, 50, 50, 51, 51, 55, 50, 48, 51, 54, 56, 53, 52, 55, 55, 53, 56, 48, 56>>, FALSE)
+         /\ ~Matches(x[1], <<x[2]>>, e, <<48>>, FALSE)
+         /\ Matches(x[1], <<x[2]>>, e, <<43, 73, 110, 102>>, FALSE) /\ Matches(x[1], <<x[2]>>, e, <<78, 97, 78>>, FALSE)
+         /\ Matches(x[1], <<x[2]>>, e, BADTYPE, FALSE)
 
 Init == c \in {[hdr |-> TRUE, law |-> w, x |-> <<>>] : w \in Laws}
 Next == c.hdr /\ \E x \in Cases(c.law) : c' = [hdr |-> FALSE, law |-> c.law, x |-> x]
